@@ -21,14 +21,26 @@ def run(rep: Report, repo: Repo):
     rep.assumptions = ['NOT DECIDED: float32 sentinel absorption (TMAX + d >= TMAX, TMIN + d == TMIN for realistic d), on which "the waveform starts at the '
                        'Boolean function of the initial values" additionally rests (edges generated while the TMIN entries are consumed collapse)',
                        'NOT DECIDED: loop termination; well-formedness of input waveforms beyond what s_to_c writes']
-    K = Kernel(repo)
-    mod, f = K.mod, K.f
-    initial_value(rep, K)
-    parity(rep, K)
-    bounds(rep, K)
-    siblings(rep, K)
+    kernel_rules(rep, repo)
     stimulus_table(rep, repo, rid='C03.stimulus')
     capture_final(rep, repo)
+
+
+def kernel_rules(rep, repo):
+    """the rules about _wave_eval this property (and C04, C05, which include them) rests on: the evaluated kernel rule (settle, bounds) and the
+    path rules. When the evaluated rule ran, the statement templates of the prologue (C03.init) are not applied - the evaluation starts every
+    situation from the prologue - and a kernel the path engine cannot parse is decided by the evaluation."""
+    from checks import kernel_eval
+    ke = kernel_eval.decide(rep, repo, 'C03', ('settle', 'bounds'))
+
+    def structural():
+        K = Kernel(repo)
+        if not ke:
+            initial_value(rep, K)
+        parity(rep, K)
+        bounds(rep, K)
+        siblings(rep, K)
+    kernel_eval.with_fallback(rep, ke, 'C03', structural)
 
 
 # --------------------------------------------------------------------------- 1. initial value
@@ -682,6 +694,9 @@ def capture_loops(repo):
 
 def capture_final(rep, repo):
     rep.rule('C03.capture', 'capture: final toggles once per entry before the first t >= TMAX; reported initial value is first entry <= TMIN; result positions 3 (initial) and 6 (final)')
+    from checks import capture_eval
+    if capture_eval.decide(rep, repo, 'C03.capture', (3, 6)):
+        return          # decided by evaluating both c_to_s implementations on a family of waveforms
     mod, loops = capture_loops(repo)
     for side, f, loop, lb in loops:
         if loop is None:
